@@ -2,6 +2,7 @@ package main
 
 import (
 	"fmt"
+	"strings"
 	"sync"
 	"sync/atomic"
 	"time"
@@ -71,7 +72,7 @@ func protoOf(kind string) string {
 	return "tcp"
 }
 
-var scenarioKinds = []string{"squat-in-window", "last-port", "udp-second-close", "reserved-in-window", "quota-paths", "group-lifecycle", "remembered-after-refusal"}
+var scenarioKinds = []string{"squat-in-window", "last-port", "udp-second-close", "reserved-in-window", "quota-paths", "group-lifecycle", "remembered-after-refusal", "duplicate-name-window"}
 
 func scenarioCase(c *h.Case, i int) {
 	kind := scenarioKinds[i%len(scenarioKinds)]
@@ -92,6 +93,8 @@ func scenarioCase(c *h.Case, i int) {
 		groupLifecycle(c, variant)
 	case "remembered-after-refusal":
 		rememberedAfterRefusal(c, variant)
+	case "duplicate-name-window":
+		duplicateNameWindow(c, variant)
 	}
 	run.Count("scenario_"+kind, 1)
 }
@@ -631,4 +634,107 @@ func rememberedAfterRefusal(c *h.Case, variant int) {
 	}
 	w.finish()
 	distinct(w, fmt.Sprintf("remembered-after-refusal|%s|%v", proto, done), nil)
+}
+
+// duplicateNameWindow: two sessions register the same proxy name on different ports at the same moment. One of them is
+// parked right after the name look-up (both pass it), the other registers completely (or both are parked and released
+// together); the one that loses when the name is entered is refused and must give back the port it had already bound.
+func duplicateNameWindow(c *h.Case, variant int) {
+	rng := c.Rng
+	proto := []string{"tcp", "udp"}[variant%2]
+	swap := (variant/2)%2 == 1
+	mode := []string{"explicit", "parked-asks-0", "both-parked"}[(variant/4)%3]
+	w, err := newWorld(c, worldCfg{NAllowed: 3 + rng.Intn(3), Quota: []int{0, 0, 2}[rng.Intn(3)]})
+	if err != nil {
+		run.Inconclusive("server start failed")
+		return
+	}
+	defer w.close()
+	al := shuffled(rng, w.allowedList())
+	a, b := 1, 2 // a: the parked session
+	if swap {
+		a, b = 2, 1
+	}
+	pa, pb := w.session(1), w.session(2)
+	if pa == nil || pb == nil {
+		return
+	}
+	if swap {
+		pa, pb = pb, pa
+	}
+	N := w.pfx + "dup"
+	req := map[int]int{a: al[0], b: al[1]}
+	if mode == "parked-asks-0" {
+		req[a] = 0
+	}
+	ga := newArgGate("server.registerProxy.afterExist", pa.RunID, 0)
+	defer ga.open()
+	out := map[int]opOut{}
+	resA := make(chan opOut, 1)
+	go func() { resA <- w.regNoLock(a, N, proto, req[a], "", "") }()
+	if _, ok := ga.wait(15 * time.Second); !ok {
+		run.Inconclusive("afterExist gate not reached")
+		ga.open()
+		<-resA
+		return
+	}
+	if mode == "both-parked" {
+		gb := newArgGate("server.registerProxy.afterExist", pb.RunID, 0)
+		defer gb.open()
+		resB := make(chan opOut, 1)
+		go func() { resB <- w.regNoLock(b, N, proto, req[b], "", "") }()
+		if _, ok := gb.wait(15 * time.Second); !ok {
+			run.Inconclusive("afterExist gate not reached")
+			gb.open()
+			ga.open()
+			<-resA
+			<-resB
+			return
+		}
+		if rng.Intn(2) == 0 {
+			ga.open()
+			gb.open()
+		} else {
+			gb.open()
+			ga.open()
+		}
+		out[a], out[b] = <-resA, <-resB
+	} else {
+		out[b] = w.regNoLock(b, N, proto, req[b], "", "")
+		ga.open()
+		out[a] = <-resA
+	}
+	run.Count("gate_name_lookup_to_entry_window", 1)
+	if out[a].Unk || out[b].Unk {
+		return
+	}
+	c.Ev("duplicate-name", "mode", mode, "parked", a, "out_parked", out[a], "out_other", out[b])
+	if out[a].OK && out[b].OK {
+		c.Violation("same-proxy-name-acknowledged-twice", "sessions %d and %d both got proxy %s acknowledged (:%d and :%d)", a, b, N, out[a].Port, out[b].Port)
+	}
+	for _, s := range []int{a, b} {
+		if out[s].OK || req[s] == 0 || !strings.Contains(out[s].Err, "already in use") {
+			continue
+		}
+		LP := req[s] // the port the refused registration had acquired and bound before it lost the name
+		run.Count("refused_duplicate_after_bind", 1)
+		if bound, ok := isBound(proto, LP); ok && bound {
+			c.Violation("port-of-refused-duplicate-name-registration-left-bound-"+proto, "sessions %d and %d registered proxy name %s at the same moment (ports %d, %d); session %d was refused (%s) but %s port %d is still bound",
+				a, b, N, req[a], req[b], s, out[s].Err, proto, LP)
+		}
+		bk := w.srv.Snapshot().TCPPorts
+		if proto == "udp" {
+			bk = w.srv.Snapshot().UDPPorts
+		}
+		if who, used := bk.Used[LP]; used {
+			c.Violation("port-of-refused-duplicate-name-registration-still-booked-"+proto, "session %d's registration of %s on %s port %d was refused (%s) but the port manager still books the port (for %q); no session owns it",
+				s, N, proto, LP, out[s].Err, who)
+		}
+		if o := w.reg(3, w.pfx+"t", proto, LP, "", ""); !o.OK && !o.Unk {
+			c.Violation("port-of-refused-duplicate-name-registration-not-grantable-"+proto, "session %d's registration of %s on %s port %d was refused (%s); a following request for port %d under another name is refused: %s",
+				s, N, proto, LP, out[s].Err, LP, o.Err)
+		}
+	}
+	w.finish()
+	distinct(w, fmt.Sprintf("duplicate-name-window|%s|%s|swap=%v|%v|%v", proto, mode, swap, errClass(out[a].Err), errClass(out[b].Err)), nil)
 }
